@@ -1,15 +1,15 @@
 SPECIFICATION HSpec
 CONSTANTS
-  Ids = {1, 2, 3}
+  Ids = {1, 2, 3, 4}
   RecIds <- RecsIC
   RootId = 1
   PhenoId = 2
-  WithPairs = FALSE
-  MaxFacts = 2
+  WithPairs = TRUE
+  MaxFacts = 1
   EmitAll = TRUE
 INVARIANTS
-  LinkExact
-  Resolvable
-  UpClosed
+  SimSymmetric
+  SimBounds
+  DistIsMin
   Emit
 CHECK_DEADLOCK FALSE
